@@ -87,7 +87,7 @@ def qpt(p):
     return f"({q(F(*p[0]))}, {q(F(*p[1]))})"
 
 
-def oracle(chk, c, o):
+def oracle(chk, c, o, kind="land"):
     """the property read off the real output with an independent exact point-in-polygon, away from the tolerance band"""
     if not o["ok"]:
         # the property speaks about the candidate fields that are produced; a lot on which a candidate grid keeps no borehole makes the
@@ -101,7 +101,7 @@ def oracle(chk, c, o):
     for li, (l, g) in enumerate(zip(o["fields"], o["grid"])):
         counts = [len(f) for f in l]
         if any(b < a for a, b in zip(counts, counts[1:])):
-            chk.violation("land", pub, {"list": li, "counts": counts}, "each candidate list ordered by non-decreasing borehole count")
+            chk.violation(kind, pub, {"list": li, "counts": counts}, "each candidate list ordered by non-decreasing borehole count")
             return n
         kept_all = set()
         for f in l:
@@ -112,16 +112,122 @@ def oracle(chk, c, o):
                 pf = (float(p[0]), float(p[1]))
                 in_or_edge = any(crossing_inside(po, p) or focal_excess([(float(a), float(b)) for a, b in po], pf) < float(TOL) * 1.000001 for po in outl)
                 if not in_or_edge:
-                    chk.violation("land", pub, {"list": li, "point": [str(p[0]), str(p[1])]}, "every borehole inside, or within the edge tolerance of, a property polygon")
+                    chk.violation(kind, pub, {"list": li, "point": [str(p[0]), str(p[1])]}, "every borehole inside, or within the edge tolerance of, a property polygon")
                     return n
                 for z in nogo:
                     zf = [(float(a), float(b)) for a, b in z]
                     if crossing_inside(z, p) and focal_excess(zf, pf) > float(TOL) * 10:
-                        chk.violation("land", pub, {"list": li, "point": [str(p[0]), str(p[1])]}, "no borehole inside a no-go polygon")
+                        chk.violation(kind, pub, {"list": li, "point": [str(p[0]), str(p[1])]}, "no borehole inside a no-go polygon")
                         return n
                     if any(onseg(z[i - 1], z[i], p) for i in range(len(z))):
-                        chk.violation("land", pub, {"list": li, "point": [str(p[0]), str(p[1])]}, "no borehole on the boundary of a no-go polygon")
+                        chk.violation(kind, pub, {"list": li, "point": [str(p[0]), str(p[1])]}, "no borehole on the boundary of a no-go polygon")
                         return n
+    return n
+
+
+def converse(chk, c, o, kind="design"):
+    """no grid borehole that is clearly inside the property and clearly outside every no-go zone is dropped: for every field of the
+    grid that bi_rectangle_nested lays over the bounding rectangle, the boreholes that are clearly placeable must all appear in one
+    candidate field of the same list that is a subset of that grid field"""
+    outl, nogo = c["_outl"], c["_nogo"]
+    outf = [[(float(a), float(b)) for a, b in po] for po in outl]
+    nogof = [[(float(a), float(b)) for a, b in z] for z in nogo]
+    pub = {k: v for k, v in c.items() if not k.startswith("_")}
+    n = 0
+    memo = {}
+
+    def placeable(p):
+        if p not in memo:
+            pf = (float(p[0]), float(p[1]))
+            ins = any(crossing_inside(po, p) and focal_excess(pof, pf) > float(TOL) * 10 for po, pof in zip(outl, outf))
+            clear = all((not crossing_inside(z, p)) and focal_excess(zf, pf) > float(TOL) * 10 for z, zf in zip(nogo, nogof))
+            memo[p] = ins and clear
+        return memo[p]
+    for li, (l, gl) in enumerate(zip(o["fields"], o["grid"])):
+        fsets = [set((F(*x), F(*y)) for x, y in f) for f in l]
+        for gi, gf in enumerate(gl):
+            gset = [(F(*x), F(*y)) for x, y in gf]
+            want = {p for p in gset if placeable(p)}
+            if not want:
+                continue
+            n += len(want)
+            gs = set(gset)
+            if not any(want <= fs and fs <= gs for fs in fsets):
+                best = max(fsets, key=lambda fs: len(want & fs) if fs <= gs else -1) if fsets else set()
+                missing = sorted(want - best)[:3]
+                chk.violation(kind, pub, {"list": li, "grid_field": gi, "placeable": len(want), "dropped": [[str(a), str(b)] for a, b in missing]},
+                              "no grid borehole that is clearly inside the property and clearly outside all no-go zones is dropped")
+                return n
+    return n
+
+
+def design_cases(rng, tier, cases):
+    """the generated lots again, and some directed ones, as inputs of the public interface (floats; integer vertices and quarter-metre
+    spacings are exact in binary)"""
+    from configs import cfg
+    out = []
+    for c in cases[:6 if tier == "quick" else 40]:
+        out.append((c["_outl"], c["_nogo"], F(*c["bmin"])))
+    # directed: triangular no-go zones; an outline drawn as a closed ring is NOT generated (the code does not document it)
+    out.append(([[(F(0), F(0)), (F(40), F(0)), (F(40), F(30)), (F(0), F(30))]], [[(F(8), F(6)), (F(24), F(8)), (F(12), F(22))]], F(3)))
+    out.append(([[(F(0), F(0)), (F(36), F(0)), (F(36), F(36)), (F(0), F(36))]],
+                [[(F(5), F(5)), (F(15), F(6)), (F(7), F(14))], [(F(20), F(18)), (F(32), F(20)), (F(30), F(31)), (F(21), F(29))]], F(7, 2)))
+    # directed: a U-shaped lot and a second outline that lies across the notch (all its corners are inside or on the first outline,
+    # but it adds the land of the notch); an L-shaped lot and a parcel filling its missing corner
+    W, H, a, b, d = 40, 30, 12, 28, 14
+    U = [(0, 0), (W, 0), (W, H), (b, H), (b, H - d), (a, H - d), (a, H), (0, H)]
+    out.append(([[(F(x), F(y)) for x, y in U], [(F(a - 3), F(H - d + 2)), (F(b + 3), F(H - d + 2)), (F(b + 3), F(H - 2)), (F(a - 3), F(H - 2))]], [], F(3)))
+    out.append(([[(F(x), F(y)) for x, y in U], [(F(a), F(H - d)), (F(b), F(H - d)), (F(b), F(H)), (F(a), F(H))]], [[(F(3), F(3)), (F(9), F(4)), (F(5), F(9))]], F(3)))
+    Lsh = [(0, 0), (36, 0), (36, 16), (18, 16), (18, 32), (0, 32)]
+    out.append(([[(F(x), F(y)) for x, y in Lsh], [(F(18), F(16)), (F(36), F(16)), (F(36), F(32)), (F(18), F(32))]], [], F(7, 2)))
+    # a sub-lot that really is covered by the main lot (adds nothing): must change nothing either
+    out.append(([[(F(0), F(0)), (F(40), F(0)), (F(40), F(30)), (F(0), F(30))], [(F(5), F(5)), (F(20), F(5)), (F(20), F(20)), (F(5), F(20))]], [], F(4)))
+    res = []
+    for outl, nogo, bmin in out:
+        gc = {"b_min": float(bmin), "b_max_x": float(bmin + 4), "b_max_y": float(bmin + 5),
+              "property_boundary": [[[float(x), float(y)] for x, y in o] for o in outl] if len(outl) > 1 or rng.random() < 0.5 else [[float(x), float(y)] for x, y in outl[0]],
+              "no_go_boundaries": [[[float(x), float(y)] for x, y in z] for z in nogo]}
+        if len(nogo) == 1 and rng.random() < 0.5:
+            gc["no_go_boundaries"] = [[float(x), float(y)] for x, y in nogo[0]]          # a single zone given without the outer list
+        res.append({"cfg": cfg("BIRECTANGLECONSTRAINED", months=12, geom_over=gc), "_outl": outl, "_nogo": nogo,
+                    "outlines": [[v4(v) for v in o] for o in outl], "nogo": [[v4(v) for v in z] for z in nogo]})
+    return res
+
+
+def design_level(chk, cases):
+    """the candidate fields the search is handed when the lot goes through GHEManager.set_geometry_constraints_bi_rectangle_constrained
+    and set_design (geometry.py and design.py lie between the user's polygons and domains.polygonal_land_constraint)"""
+    dcs = design_cases(chk.rng, chk.tier, cases)
+    for c in chk.listed_inputs("design"):
+        c = dict(c)
+        c["_outl"] = [[(F(*v[0:2]), F(*v[2:4])) for v in b] for b in c["outlines"]]
+        c["_nogo"] = [[(F(*v[0:2]), F(*v[2:4])) for v in b] for b in c["nogo"]]
+        dcs.insert(0, c)
+    from concurrent.futures import ThreadPoolExecutor
+    with ThreadPoolExecutor(max_workers=NPROC) as ex:
+        rs = list(ex.map(lambda c: run_impl("geom.py", {"design": [{"cfg": c["cfg"]}]}, timeout=1500), dcs))
+    n = 0
+    okc = 0
+    for c, r in zip(dcs, rs):
+        if "_error" in r:
+            chk.broken.append({"name": "correspondence C04 (design-level driver failed)", "detail": r["_error"]})
+            return n
+        o = r["design"][0]
+        chk.cov["evaluations"] += 1
+        if not o["ok"]:
+            d = chk.cov.setdefault("input_distribution", {})
+            d["design raised " + str(o.get("exc"))] = d.get("design raised " + str(o.get("exc")), 0) + 1
+            continue
+        okc += 1
+        if len(chk.violations) >= 3:
+            break
+        before = len(chk.violations)
+        n += oracle(chk, c, o, kind="design")
+        if len(chk.violations) == before:
+            n += converse(chk, c, o)
+    if okc * 2 < len(dcs):
+        chk.broken.append({"name": "C04 design level: fewer than half of the lots produced a design object", "detail": json.dumps(chk.cov.get("input_distribution"))})
+    chk.cov["design_level_lots"] = okc
     return n
 
 
@@ -174,6 +280,8 @@ def run(chk):
                                       "a grid borehole clearly inside the property is kept")
                         break
                     nontrivial += 1
+    if len(chk.violations) < 3:
+        nontrivial += design_level(chk, cases)
     # mutable default argument: a second call must behave like the first
     if getattr(chk, "model_ok", False):
         files = []
@@ -213,12 +321,23 @@ Eval vm_compute in (list_eqb (list_eqb (list_eqb peq)) got exp, length (concat g
 
 def replay(payload):
     from lib import Check
+    kind = payload.get("kind")
+    if kind not in ("land", "design"):
+        return "RERUN"
     chk = Check("C04", "quick", payload.get("seed", 0))
     c = payload["input"]
     c["_outl"] = [[(F(*v[0:2]), F(*v[2:4])) for v in b] for b in c["outlines"]]
     c["_nogo"] = [[(F(*v[0:2]), F(*v[2:4])) for v in b] for b in c["nogo"]]
-    r = run_impl("geom.py", {"land": [{k: v for k, v in c.items() if not k.startswith("_")}]})
-    oracle(chk, c, r["land"][0])
+    if kind == "design":
+        r = run_impl("geom.py", {"design": [{"cfg": c["cfg"]}]}, timeout=1500)
+        o = r["design"][0]
+        if o["ok"]:
+            oracle(chk, c, o, kind="design")
+            if not chk.violations:
+                converse(chk, c, o)
+    else:
+        r = run_impl("geom.py", {"land": [{k: v for k, v in c.items() if not k.startswith("_")}]})
+        oracle(chk, c, r["land"][0])
     for path, found, pl in chk.violations:
         print(f"VIOLATION property=C04 replay={path}")
     return 1 if chk.violations else 0
